@@ -24,6 +24,8 @@ deriving Repr
 /-- chunk functions: `each f` is element-wise (hence partition-independent); the others look across
     their slice and are partition-dependent by the operator's documented per-partition semantics -/
 inductive BatchFn | each (f : Fn) | rev | sumall
+  /-- length-CHANGING chunk functions (round 3): drop the chunk's last element / repeat its first one -/
+  | droplast | dupfirst
 deriving Repr
 inductive Comb | count | sum | min | max | minT | maxT | distinctSet | topK (k : Nat)
 deriving Repr
@@ -72,6 +74,8 @@ def BatchFn.eval : BatchFn → List Val → List Val
   | .each f, c => c.map f.eval
   | .rev, c => c.reverse
   | .sumall, c => c.map (fun _ => .int ((c.map toInt).foldl (· + ·) 0))
+  | .droplast, c => c.dropLast
+  | .dupfirst, c => match c with | [] => [] | x :: xs => x :: x :: xs
 
 /-! ## `Val`-level combiners used by the pipeline model (accumulators are `Val`s) -/
 
@@ -160,6 +164,18 @@ inductive Step where
   /-- `map_with_side_map` (helpers/side_inputs.rs) over the side map `{0 ↦ 10, 1 ↦ 20}` -/
   | mapSideMap
   | join (k : JoinKind) (rsrc : List Val) (rsteps : List Step)
+  /-- round 3 (PIPE3b). `try_map` with a named predicate: `Ok(x)` when `p x`, else `Err("bad:<to_int x>")` -/
+  | tryMapP (p : Pred)
+  /-- `try_flat_map`: `Ok(f x)` (a `Vec`) when `p x`, else `Err("bad:<to_int x>")`; the harness then maps
+      `Result<Vec<V>, String>` to `Result<V, String>` (the `Vec` becomes a list value) with a plain `map` -/
+  | tryFlatMap (f : FlatFn) (p : Pred)
+  /-- `Result`-preserving steps: `map(|r| r.map(f))` and `filter(|r| r is Err or p(ok value))` -/
+  | resMap (f : Fn) | resFilter (p : Pred)
+  /-- `map_with_side_map` over `side_hashmap(pairs)`: duplicate keys allowed (the LAST pair wins), `[]` = empty map -/
+  | mapSideMapP (pairs : List (Int × Int))
+  /-- `apply_transform` with a user operator on `(K, V)` rows that CLAIMS `key_preserving`, `value_only` and
+      `reorder_safe_with_value_only` with cost hint `cost`: it adds `n` to every value -/
+  | customValueOp (n : Int) (cost : Nat)
 
 def unkeyF (r : Val) : Val := r                          -- `(k, v)` ↦ `P(k, v)`: the same `Val`
 def swapF (r : Val) : Val := .pair r.value r.key
@@ -189,6 +205,26 @@ def Comb.globalNeedsConv : Comb → Bool
 def Comb.perKeyNeedsConv : Comb → Bool
   | .count => true
   | _ => false
+
+/-- round 3: the error text of the named-predicate `try_map` / `try_flat_map` -/
+def badMsg (x : Val) : Val := .str ("bad:" ++ intToDec x.toInt)
+def tryPF (p : Pred) (x : Val) : Val := if p.eval x then .pair (.str "ok") x else .pair (.str "err") (badMsg x)
+def tryFlatF (f : FlatFn) (p : Pred) (x : Val) : Val :=
+  if p.eval x then .pair (.str "ok") (ofList (f.eval x)) else .pair (.str "err") (badMsg x)
+/-- is this encoded `Result` an `Err`? -/
+def isErrRow : Val → Bool
+  | .pair (.str t) _ => t == "err"
+  | _ => false
+def resMapF (f : Fn) (r : Val) : Val := if isErrRow r then r else .pair r.key (f.eval r.value)
+def resFilterF (p : Pred) (r : Val) : Bool := isErrRow r || p.eval r.value
+/-- `HashMap::from_iter(pairs)`: the last pair with a given key wins -/
+def sideMapLookup (pairs : List (Int × Int)) (k : Int) : Int :=
+  pairs.foldl (fun acc kv => if kv.1 == k then kv.2 else acc) 0
+def sideMapPF (pairs : List (Int × Int)) (x : Val) : Val := .int (x.toInt + sideMapLookup pairs (x.toInt % 3))
+/-- the flag-claiming user operator of `apply_transform` (all three capability flags, cost hint `cost`) -/
+def customValueDynOp (n : Int) (cost : Nat) : DynOp Part :=
+  { apply := List.map (fun r => .pair r.key (.int (r.value.toInt + n))),
+    keyPreserving := true, valueOnly := true, reorderSafe := true, cost := cost }
 
 def st (op : DynOp Part) : Node Part := .stateless [op]
 
@@ -238,6 +274,12 @@ def Step.apply (acc : List (Node Part)) : Step → List (Node Part)
       -- `chain_from` snapshots both lineages literally; the outer chain restarts at a dummy source;
       -- the harness then maps the joined rows `(k, (v, w))` back to `(V, V)` rows
       [dummySource, joinNode k acc (applySteps [vecSource rsrc] rsteps), st (mapOp id)]
+  | .tryMapP p => acc ++ [st (mapOp (tryPF p))]
+  | .tryFlatMap f p => acc ++ [st (mapOp (tryFlatF f p)), st (mapOp (fun x => x))]
+  | .resMap f => acc ++ [st (mapOp (resMapF f))]
+  | .resFilter p => acc ++ [st (filterOp (resFilterF p))]
+  | .mapSideMapP pairs => acc ++ [st (mapOp (sideMapPF pairs))]
+  | .customValueOp n cost => acc ++ [st (customValueDynOp n cost)]
 
 def applySteps (acc : List (Node Part)) : List Step → List (Node Part)
   | [] => acc
